@@ -106,6 +106,9 @@ def classify(ix, msg):
                 for it in u.items:
                     if it["kind"] == "field" and u.tid(it["parent"]) == pt and it["fname"] == mm.group(2):
                         return "unusedfld:%d" % it["id"]
+    m = re.match(r"provider for (.*) can't be used: \S+ is not exported by package", body)
+    if m:
+        return "unexported:%d" % ix.tid_of(m.group(1))
     m = re.match(r"provider for (.*) returns cleanup but injection does not return cleanup function", body)
     if m:
         return "needcleanup:%d" % ix.tid_of(m.group(1))
